@@ -218,3 +218,35 @@ Example scan_batches_agree_range_nonvacuous :
      ([CNext (Some "abc"); CNext (Some "b")], [("abc","3")]);
      ([], [])]%string.
 Proof. vm_compute. reflexivity. Qed.
+
+(* ------------------------------------------------------------------ LIMIT reads no more than the
+   unlimited statement, call by call (Proofs/LimitCallsProofs.v).  ROW mode, EVERY final plan fp
+   under the FinalLimitPlan (projection / aggregate / order / another limit, over any scan node,
+   hence every SELECT statement Model/PipelineIO.v builds from an accepted text), every storage
+   state (any data, any log so far, any fault index), every filter / group-key oracle, fuel above
+   the store size + the listed keys (Proofs/ScanIOFuel.v: [stmt_fuel] is): the call log of
+   `<select> limit start, count` is a PREFIX of the call log of `<select>`.  Hence the LIMIT
+   statement reads no key the unlimited statement does not read, and call i of the limited run
+   is call i of the unlimited run (a fault at call i hits both, C13).  The batch-mode statement
+   is false as it stands ([limit_calls_prefix_batch_refuted] above). *)
+From KV Require Import Proofs.LimitCallsProofs.
+
+Theorem limit_calls_prefix_row :
+  forall (remember_end : bool) (flt : kvp -> bool) (gkey : kvp -> bytes) (B fuel : nat)
+         (start count : nat) (fp : fplan) (st : sstate),
+  List.length (sdata st) + fplan_keys fp < fuel ->
+  exists l,
+    slog (snd (ScanIO.run_stmt remember_end flt gkey B fuel RowMode (StSelect fp) st))
+    = (slog (snd (ScanIO.run_stmt remember_end flt gkey B fuel RowMode (StSelect (FLimit start count fp)) st)) ++ l)%list.
+Proof. exact limit_calls_prefix_row_lemma. Qed.
+Print Assumptions limit_calls_prefix_row.
+
+(* non-vacuity: the hypothesis holds (3 pairs, fuel 30) and the prefix is PROPER: `limit 1, 1`
+   over a full scan stops after the second pair, the unlimited statement reads on to the end *)
+Example limit_calls_prefix_row_proper :
+  let d := [("a","x");("ab","y");("b","z")]%string in
+  let lg fp := slog (snd (ScanIO.run_stmt true (fun _ => true) snd 32 30 RowMode (StSelect fp) (sinit d None))) in
+  List.length (sdata (sinit d None)) + fplan_keys (FProj (PScan SFull)) < 30 /\
+  lg (FLimit 1 1 (FProj (PScan SFull))) = [CCursor; CSeek ""; CCursor; CSeek ""; CNext (Some "a"); CNext (Some "ab")]%string /\
+  lg (FProj (PScan SFull)) = (lg (FLimit 1 1 (FProj (PScan SFull))) ++ [CNext (Some "b"); CNext None])%list%string.
+Proof. vm_compute. split; [repeat constructor|split; reflexivity]. Qed.
